@@ -33,12 +33,12 @@ type Val struct {
 
 var Null = Val{}
 
-func Str(s string) Val      { return Val{K: KStr, S: s} }
-func Int(i int64) Val       { return Val{K: KInt, I: i} }
-func Flt(f float64) Val     { return Val{K: KFlt, F: f} }
-func Bool(b bool) Val       { return Val{K: KBool, B: b} }
-func Time(t time.Time) Val  { return Val{K: KTime, T: t} }
-func (v Val) IsNull() bool  { return v.K == KNull }
+func Str(s string) Val     { return Val{K: KStr, S: s} }
+func Int(i int64) Val      { return Val{K: KInt, I: i} }
+func Flt(f float64) Val    { return Val{K: KFlt, F: f} }
+func Bool(b bool) Val      { return Val{K: KBool, B: b} }
+func Time(t time.Time) Val { return Val{K: KTime, T: t} }
+func (v Val) IsNull() bool { return v.K == KNull }
 func (v Val) String() string {
 	switch v.K {
 	case KNull:
@@ -125,9 +125,9 @@ type Store struct {
 	Name string
 	Ents map[string]*Ent
 	// schema
-	Scalars map[string]Kind   // field -> declared type
-	SetSyms map[string]string // set symbol -> "" (plain string set) or linked store name
-	FkSyms  map[string]string // fk symbol -> target store
+	Scalars map[string]Kind      // field -> declared type
+	SetSyms map[string]string    // set symbol -> "" (plain string set) or linked store name
+	FkSyms  map[string]string    // fk symbol -> target store
 	BackRef map[string][2]string // set symbol -> (referrer store, fk field): computed set of referrers
 	MapSyms map[string]bool
 }
@@ -147,7 +147,7 @@ func (s *Store) Ids() []string {
 
 // SymType describes a resolved symbol.
 type SymType struct {
-	Kind   Kind   // element/scalar type; KNull = any-typed
+	Kind   Kind // element/scalar type; KNull = any-typed
 	IsSet  bool
 	Linked string // linked store for entity-valued symbols
 	Any    bool
